@@ -257,6 +257,37 @@ pub fn model_valid(inst: &Inst, v: &[BigUint]) -> bool {
     }
 }
 
+/// Coefficients (mod p) of the type's *linear* validity relation Σ wᵢ·vᵢ = const, if it has one
+/// (Histogram: Σ vᵢ = 1; MultihotCountVec: Σ buckets − dec(claimed weight) = 0; L1BoundSum:
+/// Σ dec(entries) − dec(claimed norm) = 0). An edit v[i] += w_j·t, v[j] −= w_i·t keeps that relation
+/// and can only be caught by the bit checks of positions i and j.
+pub fn affine_weights(inst: &Inst) -> Option<Vec<BigUint>> {
+    let p = inst.field().modulus();
+    let int_weights = |max: u128| -> Vec<BigUint> {
+        let (bits, last) = Inst::enc_params(max);
+        (0..bits).map(|i| if i == bits - 1 { BigUint::from(last) } else { BigUint::one() << i }).collect()
+    };
+    let neg = |w: &BigUint| (&p - (w % &p)) % &p;
+    match inst {
+        Inst::Histogram { len, .. } => Some(vec![BigUint::one(); *len]),
+        Inst::Multihot { len, max_weight, .. } => {
+            let mut w = vec![BigUint::one(); *len];
+            w.extend(int_weights(*max_weight as u128).iter().map(neg));
+            Some(w)
+        }
+        Inst::L1 { max, len, .. } => {
+            let iw = int_weights(max.0);
+            let mut w = vec![];
+            for _ in 0..*len {
+                w.extend(iw.iter().cloned());
+            }
+            w.extend(iw.iter().map(neg));
+            Some(w)
+        }
+        _ => None,
+    }
+}
+
 /// Truncation of a plain encoded vector (mod p).
 pub fn model_truncate(inst: &Inst, v: &[BigUint]) -> Vec<BigUint> {
     let p = inst.field().modulus();
